@@ -20,6 +20,19 @@ pub enum Mode {
     Bytes(Vec<u8>),
 }
 
+/// a deviation from the default answer of the random source at one draw
+#[derive(Clone, Copy, Debug, PartialEq, Eq)]
+pub enum Answer {
+    /// the source reports failure and leaves the buffer untouched
+    Fail,
+    /// the source fills the first half of the buffer and then reports failure
+    FailPartial,
+    /// the source succeeds with all bytes 0xff (out of range for every scalar field)
+    Ones,
+    /// the source succeeds with all bytes zero
+    Zeros,
+}
+
 #[derive(Clone, Debug)]
 pub struct Draw {
     pub index: usize,
@@ -34,6 +47,7 @@ pub struct State {
     pub pos: usize,
     pub next_index: usize,
     pub fail_at: Vec<usize>,
+    pub script: Vec<(usize, Answer)>,
     pub log: Vec<Draw>,
     pub logging: bool,
     /// optional hook invoked at every draw (used by C17 as a scheduling point)
@@ -42,7 +56,7 @@ pub struct State {
 
 thread_local! {
     static RNG: RefCell<State> = RefCell::new(State {
-        mode: Mode::Counter(0x5eed), pos: 0, next_index: 0, fail_at: Vec::new(), log: Vec::new(), logging: false, on_draw: None,
+        mode: Mode::Counter(0x5eed), pos: 0, next_index: 0, fail_at: Vec::new(), script: Vec::new(), log: Vec::new(), logging: false, on_draw: None,
     });
 }
 
@@ -69,7 +83,8 @@ pub fn counter_bytes(seed: u64, index: usize, len: usize) -> Vec<u8> {
     out
 }
 
-fn serve(len: usize, source: &'static str, can_fail: bool) -> Result<Vec<u8>, ()> {
+/// Ok(bytes) or Err(bytes written before the failure was reported)
+fn serve(len: usize, source: &'static str, can_fail: bool) -> Result<Vec<u8>, Vec<u8>> {
     let hook = RNG.with(|r| r.borrow().on_draw);
     if let Some(h) = hook {
         h();
@@ -78,9 +93,14 @@ fn serve(len: usize, source: &'static str, can_fail: bool) -> Result<Vec<u8>, ()
         let mut st = r.borrow_mut();
         let index = st.next_index;
         st.next_index += 1;
-        let fail = can_fail && st.fail_at.contains(&index);
+        let answer = st.script.iter().find(|(i, _)| *i == index).map(|(_, a)| *a);
+        let fail = can_fail && (st.fail_at.contains(&index) || matches!(answer, Some(Answer::Fail | Answer::FailPartial)));
         let bytes = if fail {
-            Vec::new()
+            if answer == Some(Answer::FailPartial) { counter_bytes(0x9a47, index, len / 2) } else { Vec::new() }
+        } else if answer == Some(Answer::Ones) {
+            vec![0xff; len]
+        } else if answer == Some(Answer::Zeros) {
+            vec![0; len]
         } else {
             match st.mode.clone() {
                 Mode::Counter(seed) => counter_bytes(seed, index, len),
@@ -106,7 +126,7 @@ fn serve(len: usize, source: &'static str, can_fail: bool) -> Result<Vec<u8>, ()
         if st.logging {
             st.log.push(Draw { index, len, bytes: bytes.clone(), failed: fail, source });
         }
-        if fail { Err(()) } else { Ok(bytes) }
+        if fail { Err(bytes) } else { Ok(bytes) }
     })
 }
 
@@ -120,9 +140,20 @@ pub fn with<R>(mode: Mode, fail_at: &[usize], f: impl FnOnce() -> R) -> (R, Vec<
     (r, log)
 }
 
+/// like `with`, with a script of deviations (failures and extreme values) at chosen draw indices
+pub fn with_script<R>(mode: Mode, script: &[(usize, Answer)], f: impl FnOnce() -> R) -> (R, Vec<Draw>) {
+    reset(mode, &[], true);
+    RNG.with(|r| r.borrow_mut().script = script.to_vec());
+    let r = f();
+    let log = RNG.with(|r| std::mem::take(&mut r.borrow_mut().log));
+    reset(Mode::Counter(0x5eed), &[], false);
+    (r, log)
+}
+
 pub fn reset(mode: Mode, fail_at: &[usize], logging: bool) {
     RNG.with(|r| {
         let mut st = r.borrow_mut();
+        st.script.clear();
         st.mode = mode;
         st.pos = 0;
         st.next_index = 0;
@@ -152,7 +183,10 @@ unsafe extern "Rust" fn __getrandom_v03_custom(dest: *mut u8, len: usize) -> Res
             unsafe { core::ptr::copy_nonoverlapping(b.as_ptr(), dest, len) };
             Ok(())
         }
-        Err(()) => Err(getrandom::Error::UNSUPPORTED),
+        Err(partial) => {
+            unsafe { core::ptr::copy_nonoverlapping(partial.as_ptr(), dest, partial.len().min(len)) };
+            Err(getrandom::Error::UNSUPPORTED)
+        }
     }
 }
 
